@@ -19,6 +19,7 @@ QMLUIC = os.path.join(CLI_TARGET, "debug", "qmluic")
 SPEC = os.path.join(ROOT, "spec")
 MOCKQT = os.path.join(ROOT, "mockqt")
 VERIF_METATYPES = os.path.join(MOCKQT, "verif_metatypes.json")
+VERIF_T_METATYPES = os.path.join(MOCKQT, "verif_t_metatypes.json")
 QT5_METATYPES = os.path.join(REPO, "contrib", "metatypes")
 TLA_JAR = "/opt/veriftools/tla/tla2tools.jar:/opt/veriftools/tla/CommunityModules-deps.jar"
 NCPU = os.cpu_count() or 4
@@ -102,7 +103,7 @@ def _translate_chunk(chunk, metatypes, deadline):
 def translate(reqs, metatypes=None, procs=None, deadline=10):
     """reqs: list of dicts with id, src, modes, ir...; returns {id: {mode: result}} keyed by the id itself."""
     if metatypes is None:
-        metatypes = [QT5_METATYPES, VERIF_METATYPES]
+        metatypes = [QT5_METATYPES, VERIF_T_METATYPES]
     procs = procs or min(NCPU, 12)
     if not reqs:
         return {}
@@ -136,6 +137,25 @@ class TlcResult:
         if m:
             self.invariant = m.group(1)
         self.errors = [l for l in out.splitlines() if l.startswith("Error:")]
+        # every reported invariant violation with the variable values of its (last) state: [(inv, {var: text})]
+        self.violations = []
+        lines = out.splitlines()
+        for n, l in enumerate(lines):
+            m = re.match(r"Error: Invariant (\S+) is violated", l)
+            if not m:
+                continue
+            vals = {}
+            j = n + 1
+            if "initial state" not in l:
+                while j < len(lines) and not lines[j].startswith("State "):
+                    j += 1
+                j += 1
+            while j < len(lines) and lines[j].strip() and not lines[j].startswith(("Error:", "State ")):
+                mm = re.match(r"^(?:/\\ )?(\w+) = (.*)$", lines[j])
+                if mm:
+                    vals[mm.group(1)] = mm.group(2)
+                j += 1
+            self.violations.append((m.group(1), vals))
         self.coverage = {}
         for m in re.finditer(r"^<(\w+) line \d+, col \d+ to line \d+, col \d+ of module (\w+)>: (\d+):(\d+)", out, re.M):
             name = m.group(1)
@@ -293,6 +313,15 @@ class Check:
             self.pid, self.tier, self.cov["evaluations"], self.cov["distinct_nontrivial"], self.cov["states"],
             len(self.violations), time.time() - self.t0))
         return 1 if self.violations else 0
+
+
+def strip_nulls(x):
+    """JSON for TLC: drop null members (the Json module has no null), keep everything else."""
+    if isinstance(x, dict):
+        return {k: strip_nulls(v) for k, v in x.items() if v is not None}
+    if isinstance(x, list):
+        return [strip_nulls(v) for v in x]
+    return x
 
 
 def write_ndjson(path, records):
